@@ -361,6 +361,87 @@ def check_stub_next_to_sidecar(which, rec):
         shutil.rmtree(root, ignore_errors=True)
 
 
+def check_second_handle(cls, mode2, rec):
+    """A second record object on the same files in the same process (e.g. a viewer opened from container.metador.source)
+    while the first one has an uncommitted patch: whatever is refused or allowed, a container that was committed
+    never changes afterwards and the record stays openable."""
+    root = H.new_scratch("vt-c02h-")
+    case = dict(kind="secondhandle", cls=cls.__name__, mode2=mode2)
+    a = b = None
+    try:
+        p = os.path.join(root, "rec")
+        r = cls(p, "w")
+        r["base"] = 0
+        r.close()
+        a = cls(p, "r+")
+        a["from_a"] = 1
+        steps = []
+        try:
+            b = cls(p, mode2)
+            steps.append("second open ok")
+        except Exception as e:  # noqa: BLE001 - refusing the second object is fine
+            steps.append(f"second open refused ({type(e).__name__})")
+        committed = {}
+
+        def note():
+            # files that carry a checksum now are committed: remember their digest
+            for n_, dg in recutil.dir_digest(root).items():
+                if n_.endswith(".ih5") and n_ not in committed:
+                    try:
+                        from metador_core.ih5.record import IH5UserBlock
+                        if IH5UserBlock.load(Path(root) / n_).hdf5_hashsum is not None:
+                            committed[n_] = dg
+                    except Exception:  # noqa: BLE001
+                        pass
+
+        def attempt(what, fn):
+            try:
+                fn()
+                steps.append(what + " ok")
+            except Exception as e:  # noqa: BLE001
+                steps.append(f"{what} refused ({type(e).__name__})")
+            now = recutil.dir_digest(root)
+            ch = sorted(n_ for n_, dg in committed.items() if now.get(n_) != dg)
+            if ch:
+                raise Violation(f"C02:committed-file-modified:second-handle:{mode2}", f"{ch} changed after: {'; '.join(steps)}",
+                                "committed containers never change")
+            note()
+
+        note()
+        if b is not None and mode2 != "r":
+            attempt("b write", lambda: b.__setitem__("from_b", 2))
+            attempt("b commit", lambda: b.commit_patch())
+        if b is not None and mode2 == "r":
+            attempt("b read", lambda: sorted(b.keys()))
+        attempt("a commit", lambda: a.commit_patch())
+        attempt("a late write", lambda: a.__setitem__("late", 3))
+        if b is not None:
+            attempt("b late attr write", lambda: b.attrs.__setitem__("evil", 1))
+            attempt("b close", lambda: b.close())
+        attempt("a close", lambda: a.close())
+        a = b = None
+        H.close_leaked_h5()
+        try:
+            chk = cls(p, "r")
+            chk.close()
+        except Exception as e:  # noqa: BLE001
+            H.close_leaked_h5()
+            raise Violation(f"C02:record-unopenable-after-second-handle:{mode2}", f"{type(e).__name__}: {str(e)[:200]} after: {'; '.join(steps)}",
+                            "the record opens")
+        rec.case(nt_key=["secondhandle", cls.__name__, mode2], classes=["second_handle_same_process"], sample=dict(case, steps=steps))
+    except Violation as v:
+        rec.fail(v.signature, case, v.observed, v.expected)
+    finally:
+        for x in (a, b):
+            try:
+                if x is not None:
+                    x.close(commit=False)
+            except Exception:  # noqa: BLE001
+                pass
+        H.close_leaked_h5()
+        shutil.rmtree(root, ignore_errors=True)
+
+
 def check_relpath_chdir(cls, how, rec):
     """A record opened by a RELATIVE path keeps working on its own files when the process changes its working
     directory - it never touches the committed files of a same-named record in the new working directory."""
@@ -419,6 +500,9 @@ def run_shard(shard, tier, seed, rec):
                 check_relpath_chdir(cls, how, rec)
         for which in ("base", "patch"):
             check_stub_next_to_sidecar(which, rec)
+        for cls in (H.IH5Record, H.IH5MFRecord):
+            for mode2 in ("r", "r+"):
+                check_second_handle(cls, mode2, rec)
         return
     i = shard["i"]
     n = {"quick": 100, "thorough": 1300}[tier]
@@ -431,7 +515,9 @@ def run_shard(shard, tier, seed, rec):
 def replay(rp, rec):
     H.install_work_guard()
     try:
-        if rp["case"].get("kind") == "stubsidecar":
+        if rp["case"].get("kind") == "secondhandle":
+            check_second_handle(H.IH5Record if rp["case"]["cls"] == "IH5Record" else H.IH5MFRecord, rp["case"]["mode2"], rec)
+        elif rp["case"].get("kind") == "stubsidecar":
             check_stub_next_to_sidecar(rp["case"]["which"], rec)
         elif rp["case"].get("kind") == "chdir":
             check_relpath_chdir(H.IH5Record if rp["case"]["cls"] == "IH5Record" else H.IH5MFRecord, rp["case"]["how"], rec)
